@@ -116,6 +116,27 @@ class Recorder:
         return self.status
 
 
+class Styler(Recorder):
+    """registers a style of its own on the formatters of THIS run's io, then uses it"""
+
+    def handle(self, args, io, command):
+        from clikit.api.formatter import Style
+
+        io.output.formatter.add_style(Style("zz").fg("red").bold())
+        io.error_output.formatter.add_style(Style("zz").fg("red").bold())
+        io.write_line("<zz>styled</zz> by %s" % command.full_name)
+        return Recorder.handle(self, args, io, command)
+
+
+class StyleUser(Recorder):
+    """uses the tag <zz> without registering it: unknown to the formatters of a fresh run"""
+
+    def handle(self, args, io, command):
+        io.write_line("<zz>text</zz> of %s" % command.full_name)
+        io.error_line("<zz>err</zz> of %s" % command.full_name)
+        return Recorder.handle(self, args, io, command)
+
+
 def build_history_app():
     from clikit import ConsoleApplication
     from clikit.api.args.format import Argument, Option
@@ -162,6 +183,10 @@ def build_history_app():
         c.set_handler(Recorder(log, status=3))
     with config.command("boom") as c:
         c.set_handler(Recorder(log, raises=RuntimeError))
+    with config.command("style") as c:
+        c.set_handler(Styler(log))
+    with config.command("usezz") as c:
+        c.set_handler(StyleUser(log))
     return ConsoleApplication(config), log
 
 
@@ -176,6 +201,11 @@ LINES = [
     "foo --num=abc -h", "foo x y",
     # version, verbosity, quiet, a failing handler
     "--version", "foo a -V", "boom", "boom -vvv", "foo a -v", "foo a -q", "--ansi foo a",
+    # what one run does to its formatters (a style registered by a handler, a style left open by unbalanced markup in an
+    # error message) is gone with that run
+    # (closing tags are spelled in two pieces: this file is itself the source of frames rendered by the trace checks, and
+    # unbalanced markup in a source line is the known C20 finding mismatched-tags-in-source)
+    "style", "usezz", "style --ansi", "usezz --ansi", "'<" + "/info>' --ansi", "'<error>' --ansi", "'<" + "/info>' --no-ansi",
 ]
 LINES = list(dict.fromkeys(LINES))
 
@@ -593,8 +623,12 @@ def check_component(cid, factory, render, cfg):
         fails.append(("components|%s|second-render-differs" % cid.split("[")[0], "%s rendered twice on io %r: %r then %r" % (
             cid, cfg, _first_diff(outs[0][0], outs[1][0])[0], _first_diff(outs[0][0], outs[1][0])[1])))
     io = _io(*cfg)
-    render(comp, io)
-    render(comp, io)
+    try:
+        render(comp, io)
+        render(comp, io)
+    except Exception as e:
+        return fails + [("components|%s|second-render-on-same-io-raises" % cid.split("[")[0],
+                         "%s rendered twice onto one io %r raised %r" % (cid, cfg, e))]
     if io.fetch_output() != outs[0][0] * 2:
         fails.append(("components|%s|second-render-on-same-io-differs" % cid.split("[")[0], "%s rendered twice onto one io %r is not twice the single output" % (cid, cfg)))
     if inputs != before:
